@@ -195,7 +195,7 @@ fn fold_compound(
             let mut terms = terms.into_iter(); // * 📝对于「取头部元素，然后抛弃整个数组」的情况，适合用迭代器而非`get`/`remove`
             let left = terms.next().ok_or(FoldError!("在内涵差中找不到左词项"))?;
             let right = terms.next().ok_or(FoldError!("在内涵差中找不到右词项"))?;
-            EnumTerm::new_difference_extension(left, right)
+            EnumTerm::new_difference_intension(left, right)
         },
         // NAL-4 //
         // 乘积
